@@ -407,7 +407,9 @@ def r19_3(ctx: Ctx, rep: Report, rid: str = "R19.3") -> None:
     up = ctx.func("Ace.ungroup_ports")
     rep.instance()
     ok = False
-    for p in function_paths(ctx.cfg(up)):
+    from .normalise import normalised
+
+    for p in function_paths(ctx.cfg(normalised(ctx, up, "ifexp"))):  # `return [self] if len(aces) == 1 else aces`
         if p.raises or p.ret is None:
             continue
         if isinstance(p.ret, ast.List) and len(p.ret.elts) == 1 and src(p.ret.elts[0]) == "self":
